@@ -492,6 +492,7 @@ func units(tier string) []engine.Unit {
 	}
 	us = append(us, derivedUnits()...)
 	us = append(us, formatterFirstUse())
+	us = append(us, longSorts()...)
 	us = append(us, engine.RacePassUnit("C19"))
 	N := common.N
 	us = append(us,
